@@ -421,7 +421,9 @@ static void c20_midpoint(void) {
 
 /* ------------------------------------------------------------------------------------- ground truth */
 
-static Truth ground_truth(void) {
+/* caller holds c20_mu: the self-pipe fill, the helper-thread counters and listener_count are then mutually consistent
+ * (posting threads hold the mutex from the increment until the event is in the pipe) */
+static Truth ground_truth_locked(void) {
     Truth t = {0, 0, 0, 0, 0};
     for (JanetGCObject *o = janet_vm.blocks; o; o = o->data.next) {
         if ((o->flags & JANET_MEM_TYPEBITS) == JANET_MEMORY_FIBER) {
@@ -431,11 +433,16 @@ static Truth ground_truth(void) {
             if (f->ev_callback) t.lis++;
         }
     }
-    pthread_mutex_lock(&c20_mu);
     int nbytes = 0;
     ioctl(janet_vm.selfpipe[0], FIONREAD, &nbytes);
     t.inpipe = nbytes / (long) sizeof(JanetSelfPipeEvent);
     t.calls = n_tstarted - n_twritten;
+    return t;
+}
+
+static Truth ground_truth(void) {
+    pthread_mutex_lock(&c20_mu);
+    Truth t = ground_truth_locked();
     pthread_mutex_unlock(&c20_mu);
     return t;
 }
@@ -489,8 +496,8 @@ static long count_threads(void) {
 }
 
 static void snapshot(const char *tag) {
-    Truth t = ground_truth();
     pthread_mutex_lock(&c20_mu);
+    Truth t = ground_truth_locked();
     out("S %ld %s lc=%d tq=%zu rq=%d roots=%zu stale=%zu done=%d | susp=%ld lis=%ld inpipe=%ld calls=%ld nullev=%ld\n",
         c20_step, tag, (int) janet_atomic_load(&janet_vm.listener_count), janet_vm.tq_count, (int) janet_q_count(&janet_vm.spawn),
         janet_vm.root_count, count_stale_timers(), janet_loop_done(), t.susp, t.lis, t.inpipe, t.calls, n_delivered_null);
